@@ -49,6 +49,20 @@ type Contract struct {
 	Fresh     []string // result names that are freshly allocated objects
 	Assumes   []Clause // explicit assumptions (listed in evidence)
 	RecvNotNil bool
+	GhostExit []GhostAssign // ghost assignments performed at every normal exit
+}
+
+type GhostAssign struct {
+	Target *Expr // x.ghostfield
+	Value  *Expr
+	Src    string
+}
+
+type GhostField struct {
+	Struct string // struct type name (in the declaring package)
+	Name   string
+	Type   string // spec type
+	PkgPath string
 }
 
 type SpecFn struct {
@@ -81,10 +95,11 @@ type ContractDB struct {
 	PurePkg map[string]bool // packages whose functions are assumed effect-free with unconstrained results
 	Files   []string
 	Consts  map[string]string // named spec constants
+	Ghosts  map[string]*GhostField // "pkgpath.Struct.field"
 }
 
 func NewContractDB() *ContractDB {
-	return &ContractDB{Funcs: map[string]*Contract{}, Specs: map[string]*SpecFn{}, PurePkg: map[string]bool{}, Consts: map[string]string{}}
+	return &ContractDB{Funcs: map[string]*Contract{}, Specs: map[string]*SpecFn{}, PurePkg: map[string]bool{}, Consts: map[string]string{}, Ghosts: map[string]*GhostField{}}
 }
 
 const modulePath = "github.com/streamingfast/substreams"
@@ -92,9 +107,9 @@ const modulePath = "github.com/streamingfast/substreams"
 var tagRe = regexp.MustCompile(`\[(C[0-9]+(?:,\s*C[0-9]+)*)\]`)
 
 var clauseKeywords = map[string]bool{"requires": true, "ensures": true, "xensures": true, "panics_if": true, "modifies": true,
-	"loop": true, "arith": true, "trusted": true, "inline": true, "nosafety": true, "pure": true, "fresh": true, "assume": true}
+	"loop": true, "arith": true, "trusted": true, "inline": true, "nosafety": true, "pure": true, "fresh": true, "assume": true, "ghost_exit": true}
 
-var topKeywords = map[string]bool{"func": true, "spec": true, "pred": true, "lemma": true, "purepkg": true, "const": true, "uninterp": true}
+var topKeywords = map[string]bool{"ghostfield": true, "func": true, "spec": true, "pred": true, "lemma": true, "purepkg": true, "const": true, "uninterp": true}
 
 type rawLine struct {
 	text string
@@ -183,6 +198,15 @@ func (db *ContractDB) LoadFile(path string, trusted bool, pkgPath string) error 
 		w := firstWord(it.head)
 		rest := strings.TrimSpace(it.head[len(w):])
 		switch w {
+		case "ghostfield":
+			// ghostfield Struct.name type
+			fl := strings.Fields(rest)
+			if len(fl) < 2 || !strings.Contains(fl[0], ".") {
+				return fmt.Errorf("%s:%d: ghostfield Struct.name type", path, it.line)
+			}
+			i := strings.Index(fl[0], ".")
+			g := &GhostField{Struct: fl[0][:i], Name: fl[0][i+1:], Type: strings.Join(fl[1:], " "), PkgPath: pkgPath}
+			db.Ghosts[pkgPath+"."+g.Struct+"."+g.Name] = g
 		case "purepkg":
 			for _, p := range strings.Fields(rest) {
 				db.PurePkg[p] = true
@@ -334,6 +358,20 @@ func (c *Contract) addClause(p rawLine, path string) error {
 		default:
 			return fmt.Errorf("unknown loop clause %q", f[1])
 		}
+	case "ghost_exit":
+		i := strings.Index(rest, ":=")
+		if i < 0 {
+			return fmt.Errorf("ghost_exit needs :=")
+		}
+		t, err := ParseExpr(strings.TrimSpace(rest[:i]))
+		if err != nil {
+			return err
+		}
+		v, err := ParseExpr(strings.TrimSpace(rest[i+2:]))
+		if err != nil {
+			return err
+		}
+		c.GhostExit = append(c.GhostExit, GhostAssign{Target: t, Value: v, Src: rest})
 	case "arith":
 		if rest != "wrapping" && rest != "checked" {
 			return fmt.Errorf("arith pragma must be wrapping or checked")
